@@ -28,6 +28,10 @@ type RouteItem struct {
 	// HoldAtPickupMs (mux): the Accept is held this long between taking the parked connection and
 	// acknowledging it (hook point mux.accept.gotConn)
 	HoldAtPickupMs int `json:"holdAtPickupMs,omitempty"`
+	// LineUp (mux): the id is dialled first and its Accept is issued at the very moment the accepting side's
+	// Run goroutine has read the id off the new stream (hook point mux.run.gotID), by a goroutine that
+	// spins on a flag: both reach the pending-entry lookup within a microsecond of each other
+	LineUp bool `json:"lineUp,omitempty"`
 	// HoldAtGotInfoMs (grpc, no mux): the Dial is held this long between receiving the listener's address and
 	// connecting to it (hook point grpcbroker.dial.gotInfo; a slow address translator does the same)
 	HoldAtGotInfoMs int `json:"holdAtGotInfoMs,omitempty"`
